@@ -61,6 +61,18 @@ fn main() {
         Some("c20-inner") => props::c20::inner(&args[2..]),
         Some("c19-case") => props::c19::debug_case(args[2].parse().unwrap(), args[3].parse().unwrap(), &args[4]),
         Some("c17-worker") => props::c17::worker(&args[2..]),
+        Some("bigrecovery") => {
+            let mut report = util::Report::new("debug", "quick", "model_checking");
+            props::bigrecovery::run(&["C04", "C11"], &mut report);
+            println!("{}", serde_json::to_string(&report.coverage["big_recovery"]).unwrap_or_default());
+            for v in report.violations.iter().take(6) {
+                println!("VIOLATION {}", v.detail.chars().take(700).collect::<String>());
+            }
+            for m in &report.machinery {
+                println!("MACHINERY {m}");
+            }
+            i32::from(!report.violations.is_empty())
+        }
         Some("suite") => {
             util::start_watchdog("debug", "", 30);
             props::run_suite(
